@@ -15,7 +15,7 @@ import (
 // request ID may already be in use by a newer response (of the same or of another peer).
 type RequestCloser interface {
 	TerminateRequest(requestID graphsync.RequestID, sub *subscriber)
-	CloseWithNetworkError(requestID graphsync.RequestID, sub *subscriber)
+	CloseWithNetworkError(requestID graphsync.RequestID, sub *subscriber) error
 }
 
 type subscriber struct {
@@ -35,12 +35,16 @@ func (s *subscriber) OnNext(_ notifications.Topic, event notifications.Event) {
 	}
 	switch responseEvent.Name {
 	case messagequeue.Error:
-		s.requestCloser.CloseWithNetworkError(s.request.ID(), s)
+		closeErr := s.requestCloser.CloseWithNetworkError(s.request.ID(), s)
 		responseCode := responseEvent.Metadata.ResponseCodes[s.request.ID()]
 		if responseCode.IsTerminal() {
 			s.requestCloser.TerminateRequest(s.request.ID(), s)
 		}
-		s.networkErrorListeners.NotifyNetworkErrorListeners(s.p, s.request, responseEvent.Err)
+		if closeErr == nil {
+			// a request that had already ended (cancelled by the requestor, completed) when a
+			// message with left-over data of it failed is not reported a second time
+			s.networkErrorListeners.NotifyNetworkErrorListeners(s.p, s.request, responseEvent.Err)
+		}
 	case messagequeue.Sent:
 		blockDatas := responseEvent.Metadata.BlockData[s.request.ID()]
 		for _, blockData := range blockDatas {
